@@ -28,6 +28,7 @@ EXPLANATION += ' Also decided: every entry point exits with the channel DB clean
 
 def run(ctx):
     model = ctx.model
+    shared.r_wire(ctx, "R02.wire")
     shared.r_durable(ctx, "R02.durable", ("chan",),
                      'after a restart an acknowledged message is gone, or a deleted mailbox is back')
     from .. import roles as _roles
